@@ -13,6 +13,9 @@ def ka_scenarios(rng, n):
     out = []
     for _ in range(n):
         pool = {'n_jobs': rng.choice([1, 2, 3]), 'start_method': rng.choice(['fork', 'fork', 'threading']), 'use_worker_state': True}
+        for k in ('pass_worker_id', 'shared_objects'):
+            if rng.random() < .5:
+                pool[k] = True
         ka = rng.random() < .7
         if ka:
             pool['keep_alive'] = True
@@ -23,8 +26,11 @@ def ka_scenarios(rng, n):
             if r < .12:
                 ops.append({'op': 'set', 'what': 'keep_alive', 'value': rng.random() < .5})
                 continue
-            if r < .2:
-                ops.append({'op': 'set', 'what': rng.choice(['pass_worker_id', 'shared_objects']), 'value': rng.random() < .5})
+            if r < .3:
+                what = rng.choice(['pass_worker_id', 'shared_objects', 'use_worker_state'])
+                # mostly real changes (also back to "off"/None), sometimes a no-op
+                cur_val = bool(pool.get(what)) if not [o for o in ops if o.get('what') == what] else [o for o in ops if o.get('what') == what][-1]['value']
+                ops.append({'op': 'set', 'what': what, 'value': (not cur_val) if rng.random() < .8 else cur_val})
                 continue
             op = {'op': rng.choice(['map', 'map_unordered', 'imap', 'imap_unordered']), 'n': rng.randint(1, 12), 'chunk_size': rng.choice([1, 2, 3]),
                   'elem': rng.choice(['scalar', 'tuple', 'dict']), 'init': True, 'exit': True}
@@ -48,8 +54,9 @@ def judge(chk, sc, o):
         return
     case = {'scenario': sc}
     ka = bool(sc['pool'].get('keep_alive'))
-    settings = {'pass_worker_id': False, 'shared_objects': False}
+    settings = {k: bool(sc['pool'].get(k)) for k in ('pass_worker_id', 'shared_objects', 'use_worker_state')}
     prev_tokens = None
+    old_alive = set()
     prev_reached = False
     calls = o.get('calls', [])
     for opi, (op, oo) in enumerate(zip(sc['ops'], o.get('ops', []))):
@@ -58,6 +65,8 @@ def judge(chk, sc, o):
                 ka = op['value']
             elif settings.get(op['what']) != op['value']:
                 settings[op['what']] = op['value']
+                if isinstance(prev_tokens, set):
+                    old_alive = set(prev_tokens)
                 prev_tokens = 'restart'
             continue
         if op['op'] == 'stop_and_join':
@@ -71,7 +80,10 @@ def judge(chk, sc, o):
         lifespan = op.get('worker_lifespan')
         restarted = lifespan is not None and lifespan < 50
         if prev_tokens == 'restart':
-            pass
+            workers_now = {c[3] for c in mine if c[1] == 'task'}
+            if workers_now & old_alive:
+                chk.violation('setters_force_restart', case, {'op': opi, 'reused_instances': sorted(workers_now & old_alive)},
+                              'changing pass_worker_id / shared_objects / use_worker_state takes effect through fresh workers', input_class='setters_force_restart')
         elif prev_tokens is not None and prev_ka and not restarted and not prev_restarted:
             fresh = toks - prev_tokens
             if fresh:
